@@ -169,9 +169,13 @@ func runC04(i int, line []byte) (res interface{}) {
 	pv, err := newValue(c.Root)
 	vio.Must(err, "root")
 	vio.Must(syms.Build(pv.Elem(), c.V), "build value")
-	got := obj{"tree": []interface{}{}, "un": []interface{}{}, "scan": []interface{}{}, "uerr": "", "serr": "", "perr": "", "smut": false}
+	got := obj{"tree": []interface{}{}, "un": []interface{}{}, "scan": []interface{}{}, "uerr": "", "serr": "", "perr": "", "smut": false, "vmerr": "", "vsame": true}
 	text, merr := xml.Marshal(pv.Interface())
 	got["merr"] = errText(merr)
+	// the same value marshalled BY VALUE (non-addressable, as an interface value) must give the same document
+	vtext, vmerr := xml.Marshal(pv.Elem().Interface())
+	got["vmerr"] = errText(vmerr)
+	got["vsame"] = bytes.Equal(text, vtext)
 	if merr == nil {
 		if t, perr := osmdoc.ParseXML(syms, text); perr == nil {
 			got["tree"] = []interface{}{t}
@@ -246,7 +250,7 @@ func runC05(i int, line []byte) (res interface{}) {
 	var c valCase
 	vio.Must(json.Unmarshal(line, &c), "c05 case")
 	defer crashed(&res, json.RawMessage(line))
-	got := obj{"tree": []interface{}{}, "un": []interface{}{}, "uerr": "", "merr": "", "perr": ""}
+	got := obj{"tree": []interface{}{}, "un": []interface{}{}, "uerr": "", "merr": "", "perr": "", "vmerr": "", "vsame": true}
 	var text []byte
 	if c.Kind == "rt" {
 		pv, err := newValue(c.Root)
@@ -255,6 +259,10 @@ func runC05(i int, line []byte) (res interface{}) {
 		var merr error
 		text, merr = safeMarshal(pv.Interface())
 		got["merr"] = errText(merr)
+		// the same value marshalled BY VALUE (non-addressable, as an interface value) must give the same document
+		vtext, vmerr := safeMarshal(pv.Elem().Interface())
+		got["vmerr"] = errText(vmerr)
+		got["vsame"] = bytes.Equal(text, vtext)
 		if merr != nil {
 			return obj{"case": json.RawMessage(line), "got": got}
 		}
